@@ -275,6 +275,62 @@ func miniGlyf(r *v.Rand) *sfnt.Font {
 	return f
 }
 
+// bigGlyf: a TrueType font at the upper end of the glyph-count range; most
+// glyphs are empty, a few are copies of real outlines.
+func bigGlyf(r *v.Rand) *sfnt.Font {
+	n := v.Pick(r, []int{65535, 65535, 40000, 12000})
+	src := goRegular().Outlines.(*glyf.Outlines)
+	o := &glyf.Outlines{Tables: map[string][]byte{}, Glyphs: make(glyf.Glyphs, n), Widths: make([]funit.Int16, n)}
+	mx := *src.Maxp
+	o.Maxp = &mx
+	for i := 0; i < n; i++ {
+		if i%97 == 0 || i == n-1 {
+			g := src.Glyphs[(i/97*7+36)%len(src.Glyphs)]
+			if g != nil {
+				if _, simple := g.Data.(glyf.SimpleGlyph); simple {
+					o.Glyphs[i] = g
+				}
+			}
+		}
+		o.Widths[i] = funit.Int16(500 + i%7)
+	}
+	if r.Chance(1, 2) {
+		o.Names = make([]string, n)
+		for i := range o.Names {
+			o.Names[i] = "g" + strconv.Itoa(i)
+		}
+		o.Names[0] = ".notdef"
+	}
+	return &sfnt.Font{Outlines: o}
+}
+
+// bigCFF: a CFF font with several thousand small glyphs.
+func bigCFF(r *v.Rand) *sfnt.Font {
+	n := v.Pick(r, []int{2000, 5000})
+	gg := make([]*cff.Glyph, n)
+	for i := range gg {
+		g := cff.NewGlyph("g"+strconv.Itoa(i), float64(400+i%300))
+		if i == 0 {
+			g.Name = ".notdef"
+		}
+		if i%3 != 0 {
+			x, y := float64(i%50), float64(i%70)
+			g.MoveTo(x, y)
+			g.LineTo(x+300, y)
+			g.LineTo(x+300, y+float64(500+i%200))
+			g.LineTo(x, y+float64(500+i%200))
+		}
+		gg[i] = g
+	}
+	o := &cff.Outlines{
+		Glyphs:   gg,
+		Private:  []*type1.PrivateDict{{BlueValues: []funit.Int16{-10, 0, 700, 710}, BlueScale: 0.039625, BlueShift: 7, BlueFuzz: 1, StdHW: 50, StdVW: 60}},
+		FDSelect: func(glyph.ID) int { return 0 },
+		Encoding: cff.StandardEncoding(gg),
+	}
+	return &sfnt.Font{Outlines: o}
+}
+
 func installCMap(f *sfnt.Font, kind string, r *v.Rand) {
 	n := f.NumGlyphs()
 	pickGid := func() glyph.ID {
@@ -390,6 +446,10 @@ func buildTemplate(t tpl) (f *sfnt.Font, err error) {
 		f = miniCFF(r.Fork("glyphs"), true)
 	case t.Name == "glyfmini":
 		f = miniGlyf(r.Fork("glyphs"))
+	case t.Name == "glyfbig":
+		f = bigGlyf(r.Fork("glyphs"))
+	case t.Name == "cffbig":
+		f = bigCFF(r.Fork("glyphs"))
 	case len(t.Name) > 3 && t.Name[:3] == "go:":
 		b, ok := goFonts[t.Name[3:]]
 		if !ok {
